@@ -1,7 +1,7 @@
 """C17 — on-start-up trigger rolls at most once, on the first record, if big enough.
 case format / comparison: gen/rollcommon.py (shared with C05, C06)."""
 from gen import rollcommon as rc
-from gen.rollcommon import model_lines, compare, classify, describe, extra_coverage  # noqa: F401
+from gen.rollcommon import model_lines, compare, classify, describe, extra_coverage, run_impl  # noqa: F401
 
 RULE = ("sweep: min_size in {0,1,2,100} x pre-existing active file in {absent, 0, min-1, min, min+1 bytes} x first "
         "build in append/truncate mode x rollers {delete, window(base 0/1, count 0..3, plain/.gz)} x histories: "
